@@ -1,4 +1,4 @@
-CONSTANTS VS = 2  MaxData = 2
+CONSTANTS VS = 1  MaxData = 1
 INIT Init
 NEXT Next
 INVARIANT Sound
